@@ -43,6 +43,9 @@ id, scale, icons, width, height, `len(pixels)`, the non-zero pixels, both flags)
 theorem fresh_map_live :
     (MapState.new (some 5)).obs 5 = obsOfRaw Gen.C20Maps.freshMap := by decide +kernel
 
+/-- The defaults of the constructor: `Map(k)` is `Map(k, width=128, height=128)`. -/
+theorem fresh_map_default_size (k : Int) : MapState.new (some k) = MapState.ofSize k 128 128 := rfl
+
 /-- `MapSet()` and `MapSet(Map(k))` satisfy the invariant. -/
 theorem fresh_sets_wf (k : Int) :
     MapSet.WF [] ∧ MapSet.WF [(k, MapState.new (some k))] := by
@@ -77,7 +80,10 @@ theorem map_replay_keys (hist : List MapPacket) (s s' : MapSet) (hs : MapSet.WF 
     ∀ k, k ∈ s'.map Prod.fst ↔ k ∈ s.map Prod.fst ∨ ∃ p ∈ hist, p.mapId = k := by
   obtain ⟨s'', h', _, hkeys, _⟩ := replay_spec hist s hs hin
   rw [h] at h'; cases h'
-  exact ⟨hkeys, fun k => by rw [hkeys]; exact mem_refKeys hist _ k⟩
+  refine ⟨hkeys, fun k => ?_⟩
+  have := mem_refKeys hist (keys s) k
+  rw [← hkeys] at this
+  exact this
 
 /-- Fields after the history: a map no packet is addressed to is untouched (or still absent); any
 other map carries its own id and the scale, icons, `is_tracking_position`, `is_locked` of the LAST
@@ -248,47 +254,43 @@ theorem map_error_state (p : MapPacket) (s s' : MapSet) (e : Err)
   exact ⟨hx, keys_dictSet _ _ _, fun k hk => by simp [dictGet_dictSet, hk],
     _, by simp [dictGet_dictSet], hfx⟩
 
+/-- A history that raises does so at its first raising packet `p`: the packets before it were
+applied without exception (to them the theorems above apply), and the final state is the one
+`map_error_state` describes for `p`; the packets after `p` are not applied. -/
+theorem map_replay_error_point (hist : List MapPacket) (s s' : MapSet) (e : Err)
+    (h : replayMapsFx hist s = (s', some e)) :
+    ∃ pre p post s1, hist = pre ++ p :: post ∧ replayMaps pre s = .ok s1 ∧
+      replayMapsFx pre s = (s1, none) ∧ applyToMapSetFx p s1 = (s', some e) := by
+  obtain ⟨pre, p, post, s1, hh, hpre, hp⟩ := replayMapsFx_err hist s s' e h
+  refine ⟨pre, p, post, s1, hh, ?_, hpre, hp⟩
+  rw [replayMaps_eq_fx, hpre]
+
 /-! ## Ties to the live code -/
 
-/-- One generated scenario: the effectful model, run on the scenario's history from `MapSet()`,
-ends with the same (absence of) exception and the same observable map set as the live code did. -/
-def scenarioOK (sc : Gen.C20Maps.Scenario) : Bool :=
-  decide (errOfName sc.2.2.1 = some (replayMapsFx (sc.2.1.map packetOfRaw) []).2) &&
-  decide ((replayMapsFx (sc.2.1.map packetOfRaw) []).1.obs = sc.2.2.2.map obsOfRaw)
-
-/-- Every scenario recorded from the LIVE `apply_to_map_set` (in-range histories over two ids,
-`IndexError` on a fresh and on a known map, `ZeroDivisionError`, wrapping negative offsets, row
-overflow, surplus pixels) is reproduced exactly by the model, exception path included: dict order,
-id, scale, icons, width, height, `len(pixels)`, every non-zero pixel, both flags. -/
+/-- Every scenario recorded from the LIVE `apply_to_map_set` (a fresh 128×128 map written in its
+last cell; an exception on a fresh map; overlapping patches, `IndexError` after two writes,
+`ZeroDivisionError`, wrapping negative offsets, row overflow, surplus pixels on small known maps)
+is reproduced exactly by the model, exception path included: dict order, id, scale, icons, width,
+height, `len(pixels)`, every non-zero pixel, both flags. -/
 theorem live_scenarios_agree : ∀ sc ∈ Gen.C20Maps.scenarios, scenarioOK sc = true := by
   decide +kernel
 
 /-- The table is not empty and contains both successful histories and ones that raise. -/
 theorem live_scenarios_cover :
-    9 ≤ Gen.C20Maps.scenarios.length ∧
-    (Gen.C20Maps.scenarios.any fun sc => sc.2.2.1.isSome) = true ∧
-    (Gen.C20Maps.scenarios.any fun sc => sc.2.2.1.isNone && decide (2 ≤ sc.2.2.2.length)) = true := by
+    10 ≤ Gen.C20Maps.scenarios.length ∧
+    (Gen.C20Maps.scenarios.any fun sc => sc.2.2.2.1.isSome && sc.2.1.isEmpty) = true ∧
+    (Gen.C20Maps.scenarios.any fun sc =>
+      sc.2.2.2.1.isNone && decide (2 ≤ sc.2.2.2.2.length)) = true := by
   decide +kernel
 
 /-! ## Changed code is noticed
 
-Each law below is the statement of a theorem above with the function under test abstracted; it
-holds of the model and fails, on a concrete history checked by `decide +kernel`, of a model of the
+`PixelLaw` and `ErrorLaw` (`Model/C20Maps.lean`) are the statements of theorems above with the
+function under test abstracted; each holds of the model and fails, on a concrete history checked by `decide +kernel`, of a model of the
 changed code. -/
 
-/-- `map_replay_total` + `map_replay_pixel` for an arbitrary replay function. -/
-def PixelLaw (replay : List MapPacket → MapSet → Except Err MapSet) : Prop :=
-  ∀ hist s, MapSet.WF s → (∀ p ∈ hist, p.InRange) →
-    ∃ s', replay hist s = .ok s' ∧ MapSet.WF s' ∧
-      ∀ k ∈ s'.map Prod.fst, ∀ x z, x < 128 → z < 128 →
-        s'.pixel k x z = some ((lastWrite hist k x z).getD ((s.pixel k x z).getD 0))
-
-/-- The first four conjuncts of `map_error_state` for an arbitrary `apply_to_map_set`. -/
-def ErrorLaw (applyFx : MapPacket → MapSet → MapSet × Option Err) : Prop :=
-  ∀ p s s' e, applyFx p s = (s', some e) →
-    ∃ m', dictGet p.mapId s' = some m' ∧ m'.id = some p.mapId ∧ m'.scale = some p.scale ∧
-      m'.icons = p.icons
-
+/-- `PixelLaw` (`map_replay_total` + `map_replay_pixel` for an arbitrary replay function) holds of
+the model. -/
 theorem pixel_law_holds : PixelLaw replayMaps := by
   intro hist s hs hin
   obtain ⟨s', h, hwf, _⟩ := map_replay_total hist s hs hin
@@ -300,6 +302,8 @@ theorem pixel_law_holds_with :
     PixelLaw (replayMapsWith fun p => MapState.new (some p.mapId)) := by
   rw [replayMapsWith_new]; exact pixel_law_holds
 
+/-- `ErrorLaw` (the first clauses of `map_error_state` for an arbitrary `apply_to_map_set`) holds of
+the model. -/
 theorem error_law_holds : ErrorLaw applyToMapSetFx := by
   intro p s s' e h
   obtain ⟨_, _, _, m', hm, h1, h2, h3, _⟩ := map_error_state p s s' e h
@@ -315,11 +319,16 @@ def pktRow1 : MapPacket :=
   { mapId := 1, scale := 0, icons := [], width := 2, height := 1, offset := (0, 1),
     pixels := some [7, 9], isTrackingPosition := true, isLocked := false }
 
-/-- A 2×2 patch at (127, 127) of map 7: its second pixel is outside the bytearray. -/
+/-- A packet for map 7 with `width == 0` but one pixel: the loop raises `ZeroDivisionError` before
+any write. -/
+def pktZero : MapPacket :=
+  { mapId := 7, scale := 3, icons := [⟨1, 2, 3, 4, none⟩], width := 0, height := 0,
+    offset := (0, 0), pixels := some [1], isTrackingPosition := false, isLocked := true }
+
+/-- A 1×3 patch at column 3, row 1: on a map with three rows its third pixel is outside. -/
 def pktOut : MapPacket :=
-  { mapId := 7, scale := 3, icons := [⟨1, 2, 3, 4, none⟩], width := 2, height := 2,
-    offset := (127, 127), pixels := some [1, 2, 3, 4], isTrackingPosition := false,
-    isLocked := true }
+  { mapId := 7, scale := 6, icons := [⟨2, 2, 2, 2, none⟩], width := 1, height := 3,
+    offset := (3, 1), pixels := some [1, 2, 3], isTrackingPosition := false, isLocked := true }
 
 /-- Seeded change "fresh map filled with `0xFF`": after the single pixel-less packet `pktBare` on
 `MapSet()`, cell (0, 0) of map 1 is `0xFF`, where the law prescribes `0`. -/
@@ -351,35 +360,39 @@ theorem seeded_width_refuted :
   simp only [decide_eq_true_eq] at hc
   exact hc.1 hwf
 
-/-- Seeded change "store the fresh map only after `apply_to_map` returned": `pktOut` raises on
+/-- Seeded change "store the fresh map only after `apply_to_map` returned": `pktZero` raises on
 `MapSet()` and leaves the set empty, where the law demands an entry for map 7. -/
 theorem seeded_late_store_refuted : ¬ ErrorLaw applyToMapSetFxLate := by
   intro h
-  have hc : applyToMapSetFxLate pktOut [] = ([], some .other) := by decide +kernel
-  obtain ⟨m', hm, _⟩ := h pktOut [] [] .other hc
+  have hc : applyToMapSetFxLate pktZero [] = ([], some .other) := by decide +kernel
+  obtain ⟨m', hm, _⟩ := h pktZero [] [] .other hc
   simp [dictGet] at hm
 
-/-! ## Non-vacuity and observations -/
+/-! ## Non-vacuity and observations
 
-/-- A map set with one known map (id 3, one non-zero cell) … -/
+(Kernel evaluation of a `128*128`-element list costs seconds per traversal, so the examples on
+full-size maps write few pixels; longer runs are in the live scenarios, on small maps.) -/
+
+/-- A map set with one known map (id 3, one non-zero cell, locked) … -/
 def sEx : MapSet :=
   [(3, { MapState.new (some 3) with scale := some 2, pixels := (MapState.new none).pixels.set 1030 5,
                                       isLocked := true })]
 
-/-- … and a history over a known and a new id, with overlapping patches, a pixel-less packet and a
-patch touching the last row and column. -/
+/-- … and a history over a known and a new id: two patches on map 3 overlapping in cell (6, 8), a
+patch into the last cell of the new map 9, and a pixel-less packet for map 9. -/
 def histEx : List MapPacket :=
   [ { mapId := 3, scale := 1, icons := [⟨1, 2, 3, -4, some "a"⟩], width := 3, height := 2,
       offset := (5, 7), pixels := some [1, 2, 3, 4, 5, 6], isTrackingPosition := false,
       isLocked := true },
-    { mapId := 9, scale := -2, icons := [], width := 2, height := 2, offset := (126, 126),
-      pixels := some [10, 11, 12, 13], isTrackingPosition := true, isLocked := false },
+    { mapId := 9, scale := -2, icons := [], width := 1, height := 1, offset := (127, 127),
+      pixels := some [13], isTrackingPosition := true, isLocked := false },
     { mapId := 3, scale := 4, icons := [], width := 2, height := 1, offset := (6, 8),
       pixels := some [7, 0], isTrackingPosition := true, isLocked := false },
     { mapId := 9, scale := 5, icons := [⟨6, 7, 0, 0, none⟩], width := 0, height := 0,
       offset := (0, 0), pixels := none, isTrackingPosition := false, isLocked := false } ]
 
-/-- The hypotheses of the history theorems hold for `sEx`, `histEx`. -/
+/-- The hypotheses of the history theorems hold for `sEx`, `histEx` (so `map_replay_total` yields a
+run, and the other theorems describe it). -/
 example : MapSet.WF sEx ∧ (∀ p ∈ histEx, p.InRange) ∧ sEx ≠ [] ∧ histEx.length = 4 := by
   decide +kernel
 
@@ -396,41 +409,46 @@ example :
     refKeys histEx (sEx.map Prod.fst) = [3, 9] := by
   decide +kernel
 
-/-- The model run agrees with those values (so the theorems speak about a run that exists). -/
+/-- A model run (the last two packets of `histEx` on `sEx`) agrees with the reference values. -/
 example :
-    (match replayMaps histEx sEx with
+    (match replayMaps (histEx.drop 2) sEx with
      | .ok s' => decide (s'.map Prod.fst = [3, 9] ∧ s'.pixel 3 6 8 = some 7 ∧
-         s'.pixel 3 7 8 = some 0 ∧ s'.pixel 3 5 8 = some 4 ∧ s'.pixel 3 0 0 = some 0 ∧
-         s'.pixel 9 127 127 = some 13 ∧ s'.pixel 9 6 8 = some 0 ∧
+         s'.pixel 3 7 8 = some 0 ∧ s'.pixel 3 0 0 = some 0 ∧ s'.pixel 9 6 8 = some 0 ∧
          (dictGet 9 s').map (·.scale) = some (some 5) ∧
          (dictGet 3 s').map (·.isLocked) = some false)
-     | .error _ => false) = true := by
+     | .error _ => false) = true ∧
+    lastWrite (histEx.drop 2) 3 6 8 = some 7 ∧ lastWrite (histEx.drop 2) 3 7 8 = some 0 := by
   decide +kernel
 
-/-- `map_error_state` is not vacuous: `pktOut` raises on `MapSet()`; afterwards map 7 is in the
-set with the packet's id, scale and icons, the fresh map's flags (tracking, not locked — NOT the
-packet's), and the one pixel written before the failing index. -/
+/-- `map_error_state` is not vacuous.  On `MapSet()`, `pktZero` raises; afterwards map 7 IS in the
+set, with the packet's id, scale and icons and the fresh map's flags (tracking, not locked — not
+the packet's).  On a known 4×3 map, `pktOut` raises at its third pixel; the first two are written
+(flat indices 7 and 11), the map keeps the flags it had. -/
 example :
-    applyToMapSetFx pktOut [] =
-      ([(7, { MapState.new (some 7) with
-                scale := some 3, icons := [⟨1, 2, 3, 4, none⟩],
-                pixels := (MapState.new none).pixels.set 16383 1 })], some .other) := by
+    (applyToMapSetFx pktZero []).2 = some .other ∧
+    (applyToMapSetFx pktZero []).1.map Prod.fst = [7] ∧
+    (dictGet 7 (applyToMapSetFx pktZero []).1).map
+        (fun m => (m.id, m.scale, m.icons, m.isTrackingPosition, m.isLocked)) =
+      some (some 7, some 3, [⟨1, 2, 3, 4, none⟩], true, false) ∧
+    applyToMapSetFx pktOut (MapSet.ofSizes [(7, 4, 3)]) =
+      ([(7, { MapState.ofSize 7 4 3 with
+                scale := some 6, icons := [⟨2, 2, 2, 2, none⟩],
+                pixels := [0, 0, 0, 0, 0, 0, 0, 1, 0, 0, 0, 2] })], some .other) := by
   decide +kernel
 
 /-- `InRange` is sufficient, not necessary, for a packet not to raise — and outside it the Python
-does not raise either but writes elsewhere: a 2×1 patch at offset `(-1, 0)` puts its first pixel
-into cell (127, 127) (Python's negative index), and a 4×1 patch at `(126, 0)` puts its last two
-pixels into columns 0 and 1 of row 1.  (Both are in the live scenarios as well.) -/
+does not raise either but writes elsewhere: a one-pixel patch at offset `(-1, 0)` lands in cell
+(127, 127) (Python's negative index), one at offset `(128, 0)` lands in column 0 of row 1.  (Longer
+versions of both are in the live scenarios.) -/
 example :
-    let neg : MapPacket := { pktRow1 with offset := (-1, 0) }
-    let spill : MapPacket := { pktRow1 with width := 4, offset := (126, 0), pixels := some [1, 2, 3, 4] }
+    let neg : MapPacket := { pktRow1 with width := 1, offset := (-1, 0), pixels := some [7] }
+    let spill : MapPacket := { pktRow1 with width := 1, offset := (128, 0), pixels := some [7] }
     ¬ neg.InRange ∧ ¬ spill.InRange ∧
     (match replayMaps [neg] [] with
-     | .ok s' => decide (s'.pixel 1 127 127 = some 7 ∧ s'.pixel 1 0 0 = some 9)
+     | .ok s' => decide (s'.pixel 1 127 127 = some 7)
      | .error _ => false) = true ∧
     (match replayMaps [spill] [] with
-     | .ok s' => decide (s'.pixel 1 126 0 = some 1 ∧ s'.pixel 1 127 0 = some 2 ∧
-         s'.pixel 1 0 1 = some 3 ∧ s'.pixel 1 1 1 = some 4)
+     | .ok s' => decide (s'.pixel 1 0 1 = some 7 ∧ s'.pixel 1 0 0 = some 0)
      | .error _ => false) = true := by
   decide +kernel
 
